@@ -94,6 +94,8 @@ inductive Phase where
   | headers (s : HS) (fieldStart : Nat)
   /-- MHD_CONNECTION_HEADERS_RECEIVED -/
   | headersDone (h : Headers) (rq : Rq)
+  /-- MHD_CONNECTION_CONTINUE_SENDING: `100 Continue` is being written, nothing is read -/
+  | cont100 (b : Body)
   /-- MHD_CONNECTION_BODY_RECEIVING -/
   | body (b : Body)
   /-- MHD_CONNECTION_FOOTERS_RECEIVING -/
@@ -108,14 +110,30 @@ inductive Phase where
   | refused (site : Nat)
   deriving Repr
 
+/-- what a call of the access handler does, as far as the request is concerned -/
+inductive HRes where
+  | cont
+  | reply
+  | no
+  deriving Repr, DecidableEq
+
 /-- the decisions that are not the business of the buffer positions -/
 structure Cfg where
   /-- `parse_connection_headers`: the framing of the body (C03: `decideBody`) -/
   frame : Bytes → Rq → Framing
   /-- `keepalive_possible` etc.: the connection is re-used after the reply -/
   keepAlive : Bytes → Rq → Bool
-  /-- the access handler: call index, bytes offered ↦ bytes taken (clamped to the offer) -/
+  /-- the first call of the access handler (MHD_CONNECTION_HEADERS_PROCESSED): go on / queue a reply early
+      (`discard_request`: the body is not read, the connection is closed after the reply) / MHD_NO -/
+  first : Bytes → Rq → HRes := fun _ _ => .cont
+  /-- `need_100_continue`: the request expects `100 Continue` (sent only while the read buffer is empty) -/
+  expect100 : Bytes → Rq → Bool := fun _ _ => false
+  /-- an upload call of the access handler: call index, bytes offered ↦ bytes taken (clamped to the offer) -/
   take : Nat → Nat → Nat
+  /-- the upload call with this index returns MHD_NO (the connection is closed and its pool destroyed at once) -/
+  refuse : Nat → Bool := fun _ => false
+  /-- the final call of the access handler: `true` = a reply is queued, `false` = MHD_NO -/
+  final : Bytes → Rq → Bool := fun _ _ => true
 
 structure CR where
   cm : CM
@@ -179,6 +197,7 @@ def Phase.extend (ph : Phase) (e : Bytes) : Phase :=
   | .headers s fs => .headers (hsExtend s e) fs
   | .headersDone h rq => .headersDone { h with buf := h.buf ++ e } rq
   | .body b => .body { b with buf := b.buf ++ e }
+  | .cont100 b => .cont100 { b with buf := b.buf ++ e }
   | .footers s n => .footers (hsExtend s e) n
   | .reqDone buf rb rq => .reqDone (buf ++ e) rb rq
   | ph => ph
@@ -297,13 +316,15 @@ inductive BLRes where
   | ok (s : BL)
   /-- `transmit_error_response_static` -/
   | err (status : Nat)
+  /-- the access handler returned MHD_NO: the connection is closed, its pool destroyed -/
+  | closed
   /-- the decoder claimed more bytes than are available -/
   | overrun (site : Nat)
   deriving Repr, DecidableEq
 
 /-- the `do … while (instant_retry)` loop of `process_request_body` on the window contents `w`
     (`available = |w| − head`); one chunk-decoder action (`Mhd.Framing.chunkAct`) per round -/
-def bodyLoop (lvl : Int) (take : Nat → Nat → Nat) (chunked : Bool) (w : List UInt8) : Nat → BL → BLRes
+def bodyLoop (lvl : Int) (take : Nat → Nat → Option Nat) (chunked : Bool) (w : List UInt8) : Nat → BL → BLRes
   | 0, s => .ok s
   | f + 1, s =>
     let b := w.drop s.head
@@ -321,23 +342,31 @@ def bodyLoop (lvl : Int) (take : Nat → Nat → Nat) (chunked : Bool) (w : List
         else .overrun 2
       | .data n =>
         if n ≤ b.length then
-          let t := min n (take s.calls n)
-          let s' := { s with head := s.head + t, off := s.off + t, calls := s.calls + 1, processed := t != 0 }
-          if t < n then .ok s' else bodyLoop lvl take chunked w f s'
+          match take s.calls n with
+          | none => .closed
+          | some tk =>
+            let t := min n tk
+            let s' := { s with head := s.head + t, off := s.off + t, calls := s.calls + 1, processed := t != 0 }
+            if t < n then .ok s' else bodyLoop lvl take chunked w f s'
         else .overrun 3
       | .err status => .err status
     else
       let n := min s.remaining b.length
-      let t := min n (take s.calls n)
-      .ok { s with head := s.head + t, remaining := s.remaining - t, calls := s.calls + 1, processed := t != 0 }
+      match take s.calls n with
+      | none => .closed
+      | some tk =>
+        let t := min n tk
+        .ok { s with head := s.head + t, remaining := s.remaining - t, calls := s.calls + 1, processed := t != 0 }
 
 /-- `process_request_body`: the loop, then the memmove of the unprocessed bytes to the window start -/
 def processBody (cfg : Cfg) (x : CR) (b : Body) : CR :=
   let w := (b.buf.extract b.rb b.buf.size).toList
-  match bodyLoop x.lvl cfg.take b.chunked w (w.length + 1)
+  match bodyLoop x.lvl (fun k n => if cfg.refuse k then none else some (cfg.take k n)) b.chunked w (w.length + 1)
       ⟨b.cur, b.off, b.remaining, b.calls, b.processed, 0⟩ with
   | .overrun n => { x with phase := .fault (.read (900 + n) b.rb) }
   | .err status => errorOut x (.reply status)
+  -- MHD_NO: CONNECTION_CLOSE_ERROR destroyed the pool; the function returns without touching the buffer again
+  | .closed => { x with phase := .error .closed }
   | .ok s =>
     match op x.cm (.bodyDrop s.head) with
     | none => { x with phase := .refused 40 }
@@ -364,17 +393,31 @@ def idleBody (cfg : Cfg) (x : CR) (b : Body) : CR :=
     else x1
   | _ => x1
 
-/-- MHD_CONNECTION_HEADERS_RECEIVED … HEADERS_PROCESSED: `parse_connection_headers`, first call of the
-    access handler (no early reply, no `100 Continue`) -/
+/-- the state after the first handler call let the request go on: nothing (more) to upload / `100 Continue`
+    first (only while the read buffer is empty) / the body -/
+def startBody (cfg : Cfg) (x : CR) (h : Headers) (rq : Rq) (chunked : Bool) (remaining : Nat) : CR :=
+  if remaining = 0 then { x with phase := .reqDone h.buf h.rb rq }
+  else
+    let b : Body := ⟨h.buf, h.rb, rq, chunked, remaining, 0, 0, false, 1, true⟩
+    if cfg.expect100 h.buf rq && x.cm.rbOff == 0 then { x with phase := .cont100 b }
+    else { x with phase := .body b }
+
+/-- MHD_CONNECTION_HEADERS_RECEIVED … HEADERS_PROCESSED: `parse_connection_headers`, then the first call of the
+    access handler: MHD_NO closes the connection; a reply queued now sets `discard_request` (the body is never
+    read, the connection is closed after the reply) -/
 def afterHeaders (cfg : Cfg) (x : CR) (h : Headers) (rq : Rq) : CR :=
   match cfg.frame h.buf rq with
   | .stop => x
   | .reject code => errorOut x (.reply code)
-  | .none => { x with phase := .reqDone h.buf h.rb rq }
-  | .len n =>
-    if n = 0 then { x with phase := .reqDone h.buf h.rb rq }
-    else { x with phase := .body ⟨h.buf, h.rb, rq, false, n, 0, 0, false, 1, true⟩ }
-  | .chunked => { x with phase := .body ⟨h.buf, h.rb, rq, true, 1, 0, 0, false, 1, true⟩ }
+  | fr =>
+    match cfg.first h.buf rq with
+    | .no => { x with phase := .error .closed }
+    | .reply => { x with phase := .error .closed }
+    | .cont =>
+      match fr with
+      | .len n => startBody cfg x h rq false n
+      | .chunked => startBody cfg x h rq true 1
+      | _ => startBody cfg x h rq false 0
 
 /-- after the reply (taken as sent at once: nothing is received while a reply is sent):
     `connection_switch_from_recv_to_send`, then `connection_reset`: with keep-alive the pool is reset,
@@ -391,8 +434,14 @@ def finishRequest (x : CR) (buf : Bytes) (rb : Nat) : CR × Bool :=
 
 /-! ### the idle loop -/
 
-/-- the cases of the `switch` of `MHD_connection_handle_idle`, in the order in which one request passes them -/
-def stLine (x : CR) : CR := match x.phase with | .reqLine s => idleReqLine x s | _ => x
+/-- the cases of the `switch` of `MHD_connection_handle_idle`, in the order in which one request passes them:
+    MHD_CONNECTION_INIT / REQ_LINE_RECEIVING; also (first case of a pass, so not in the pass that entered it)
+    MHD_CONNECTION_CONTINUE_SENDING with the interim reply written: → BODY_RECEIVING -/
+def stLine (x : CR) : CR :=
+  match x.phase with
+  | .reqLine s => idleReqLine x s
+  | .cont100 b => { x with phase := .body b }
+  | _ => x
 def stHeaders (x : CR) : CR := match x.phase with | .headers hs fs => idleHeaders x hs fs | _ => x
 def stAfter (cfg : Cfg) (x : CR) : CR := match x.phase with | .headersDone h rq => afterHeaders cfg x h rq | _ => x
 def stBody (cfg : Cfg) (x : CR) : CR := match x.phase with | .body b => idleBody cfg x b | _ => x
@@ -400,7 +449,8 @@ def stFooters (x : CR) : CR := match x.phase with | .footers s n => idleFooters 
 def stDone (cfg : Cfg) (x : CR) : CR × Bool :=
   match x.phase with
   | .reqDone buf rb rq =>
-    if cfg.keepAlive buf rq then finishRequest x buf rb
+    -- the final call of the access handler: MHD_NO closes the connection
+    if cfg.final buf rq && cfg.keepAlive buf rq then finishRequest x buf rb
     else ({ x with phase := .error .closed }, false)
   | _ => (x, false)
 
@@ -419,7 +469,7 @@ def idleStates (cfg : Cfg) : Nat → CR → CR
 /-- the connection is in one of the receiving states -/
 def CR.reading (x : CR) : Bool :=
   match x.phase with
-  | .reqLine _ | .headers _ _ | .body _ | .footers _ _ => true
+  | .reqLine _ | .headers _ _ | .body _ | .cont100 _ | .footers _ _ => true
   | _ => false
 
 /-- `has_unprocessed_upload_body_data_in_buffer` -/
